@@ -240,6 +240,7 @@ pub fn run(a: &Args) -> i32 {
     });
     let direct = evals.load(Ordering::Relaxed);
     rep.add("direct_table_queries", direct);
+    rep.add("zobrist_table_digest_low32", zobrist_digest() & 0xFFFF_FFFF);
     rep.add("generator_renewals_on_key_repeat", renewals.load(Ordering::Relaxed));
     rep.add("distinct_attack_sets_observed", distinct_outcomes.lock().unwrap().len() as u64);
 
